@@ -194,6 +194,19 @@ MUTANTS["m56_char_target_keyed_by_unclosed_set"] = (["C02"], [(N2D, """         
                 dfa_state_of_nfa_states(&mut dfa, &mut state_map, char_states.iter().copied().collect());
             dfa.add_char_transition(current_dfa_state, char, dfa_state);""")],
     "the target of a character transition is registered under the unclosed set while the closure is queued")
+MUTANTS["m57_range_merge_keeps_second_only"] = (["C02"], [(N2D, "|states_1, states_2| states_1.extend(states_2.into_iter()),", "|states_1, states_2| *states_1 = states_2,")],
+    "where two NFA ranges overlap, the merged piece keeps the targets of the later one only")
+MUTANTS["m58_range_states_added_to_every_char"] = (["C02"], [(N2D, """                if range.contains(char) {
+                    for range_state in &range.value {
+                        char_states.insert(*range_state);
+                    }
+                }""", """                for range_state in &range.value {
+                    char_states.insert(*range_state);
+                }""")], "a character transition also gets the targets of ranges that do not contain the character")
+MUTANTS["m59_any_set_also_gets_eoi_targets"] = (["C05", "C02"], [(N2D, """            any_transitions.extend(nfa.any_transitions(nfa_state));
+""", """            any_transitions.extend(nfa.any_transitions(nfa_state));
+            any_transitions.extend(nfa.end_of_input_transitions(nfa_state));
+""")], "targets of `$` are also reached by consuming any character")
 REVERTS = {
     "r01_revert_F1": ("1a68785", ["C01", "C12"]),
     "r02_revert_F2": ("551ccb8", ["C04", "C12"]),
@@ -357,6 +370,11 @@ BENIGN = {
             }
             Some(dfa_state) => *dfa_state,""", """            None => unreachable!("every queued set is registered"),
             Some(dfa_state) => *dfa_state,""")], "the dead `None` arm of the state-map lookup made explicit"),
+    "b22_eoi_targets_collected_by_loop": ([(N2D, """            end_of_input_transitions.extend(nfa.end_of_input_transitions(nfa_state));
+""", """            for next in nfa.end_of_input_transitions(nfa_state) {
+                end_of_input_transitions.insert(next);
+            }
+""")], "end-of-input targets collected with a loop and insert instead of extend"),
     "b08_eoi_action_block": ([(CG, "        self.0.__done = true; // don't handle end-of-input again\n        #end_of_input_action", "        self.0.__done = true;\n        { #end_of_input_action }")], "extra block around the end-of-input action"),
     "b09_generator_match_style": ([(GEN, """        } else if let Some(range) = current_range.take() {
             ranges.push(range);
